@@ -6,6 +6,7 @@ CONSTANTS MaxSteps = 2
           Edits = FALSE
           Pairs = "no"
           Extend = TRUE
+          Mech = TRUE
 INIT Init
 NEXT Next
 INVARIANT PoolUntouched
